@@ -31,6 +31,12 @@ EXCEPTIONS = {
         "guarded control: `if td['done'].all()` skips the machine search when every row is done / writes the final reward for all rows from per-row schedules",
     ("FFSPEnv._move_to_next_machine", "reduce-all", "ready.all()"):
         "guarded control: `while ~ready.all()` with the body restricted to idx = idx[~ready]",
+    # ---- rank-mismatched broadcast with an operand that is row-uniform by an episode invariant (not visible to the constant-fill rule)
+    ("MDCPDPEnv._step", "rank-broadcast", "action_mask[..., :num_depot].gather(-1, current_depot) | done"):
+        "latent shape slip, no cross-row effect: `done` ([B]) is or-ed with a [B, 1] column, which broadcasts to [B, B] and lets scatter_ read `own | done[0]`; "
+        "MDCPDP episodes have a fixed length (every mask-confined step visits exactly one still-available node, so count_nonzero(available) falls by one per step "
+        "in every row) and all rows of a batch finish at the same step: done[0] == done[i] at all times (240 random mask-confined rollouts: never a mixed done vector, "
+        "batched masks identical to single-instance masks -- findings/F23_mdcpdp_done_flag_broadcast_NOT_A_DEFECT.py passes)",
     # ---- shape-only use: the value only sizes a padded view; padding is masked by pad_mask
     ("FJSPEnv._decode_graph_structure", "reduce-all", "n_ops_per_batch.max()"):
         "shape-only: maximum number of operations in the batch is used as the padded width; padded columns are masked by pad_mask",
